@@ -4,8 +4,13 @@
    Rust items modelled  (vrp-cli/src/extensions/import/csv.rs):
      CsvJob, CsvVehicle            -> JobRow, VehRow (same field types: i32 / usize as bounded integers, f64 as fl)
      parse_tw                      -> parse_tw
-     read_jobs :: get_task         -> task_of_row      (demand.abs(): i32::MIN overflows — a panic in a build with
-                                                        overflow checks, which is what the harness runs; see csv_panics)
+     read_jobs :: get_task         -> task_of_row      (demand.abs(): i32::MIN would overflow; since repair 1cad789 such a
+                                                        table never gets there: csv_rejects)
+     read_jobs (row check)         -> csv_rejects      (`entries.iter().find(|job| job.demand.checked_abs().is_none())` ->
+                                                        Err "demand of job .. is out of range" -> FormatError E0000
+                                                        "cannot read jobs"; repair 1cad789 of finding C11-F2).
+                                      csv_panics_prefix = the overflow condition of the code BEFORE that repair (a panic in a
+                                      build with overflow checks, which is what the harness runs) — witness theorem only
      read_jobs :: get_tasks        -> tasks_of
      read_jobs (HashMap grouping)  -> read_jobs_ord ord rows: the job order is the iteration order of a std HashMap,
                                       i.e. arbitrary; `ord` is that order (any arrangement of the distinct ids) and the
@@ -13,7 +18,8 @@
      read_vehicles                 -> veh_of_row / read_vehicles  (vehicle ids = "<ID>_<seq>", seq = 1..=AMOUNT; since the
                                       repair 9df6aa4 — before it the PROFILE name was used, finding C11-F1)
      read_csv_problem              -> read_csv_ord / read_csv (profiles: HashSet order, again arbitrary -> first occurrence)
-   run_csv is the entry point of the correspondence: enc_Problem of the imported problem, or None for the panic. *)
+   read_csv_problem is the whole import (rejection or problem); run_csv is the entry point of the correspondence:
+   enc_Problem of the imported problem, or CsvRejected. *)
 From Coq Require Import DecimalString Decimal.
 From VRP Require Import Base.Tac Base.Json Model.SerdeSem Generated.ProblemCodec.
 Open Scope string_scope.
@@ -96,8 +102,16 @@ Definition read_csv_ord (ord pord : list string) (rows : list JobRow) (vrows : l
 Definition read_csv (rows : list JobRow) (vrows : list VehRow) : Problem :=
   read_csv_ord (job_ids rows) (profile_names vrows) rows vrows.
 
-(* `job.demand.abs()` on i32::MIN: arithmetic overflow *)
-Definition csv_panics (rows : list JobRow) : bool :=
+(* the row check of read_jobs: some DEMAND whose magnitude is not an i32 (checked_abs() is None) *)
+Definition csv_rejects (rows : list JobRow) : bool :=
+  existsb (fun r => match abs_i32 (jr_demand r) with None => true | Some _ => false end) rows.
+
+Inductive csv_res := CsvErr | CsvOk (p : Problem).
+Definition read_csv_problem (rows : list JobRow) (vrows : list VehRow) : csv_res :=
+  if csv_rejects rows then CsvErr else CsvOk (read_csv rows vrows).
+
+(* BEFORE repair 1cad789: `job.demand.abs()` on i32::MIN = arithmetic overflow (no row check) *)
+Definition csv_panics_prefix (rows : list JobRow) : bool :=
   existsb (fun r => match abs_i32 (jr_demand r) with None => negb (Z.eqb (i32v (jr_demand r)) 0) | Some _ => false end) rows.
 
 Definition all_vehicle_ids (p : Problem) : list string :=
@@ -119,10 +133,13 @@ Fixpoint dec_all_opt {A B} (f : A -> option B) (l : list A) : option (list B) :=
   | a :: r => bind (f a) (fun b => bind (dec_all_opt f r) (fun bs => Some (b :: bs)))
   end.
 
-Inductive csv_out := CsvBadInput | CsvPanic | CsvProblem (j : json).
+Inductive csv_out := CsvBadInput | CsvRejected | CsvProblem (j : json).
 Definition run_csv (jt : list (string * (Z * nat) * (Z * nat) * Z * Z * option string * option string))
                    (vt : list (string * (Z * nat) * (Z * nat) * Z * string * string * Z * string)) : csv_out :=
   match dec_all_opt mk_job_row jt, dec_all_opt mk_veh_row vt with
-  | Some rows, Some vrows => if csv_panics rows then CsvPanic else CsvProblem (enc_Problem (read_csv rows vrows))
+  | Some rows, Some vrows => match read_csv_problem rows vrows with
+                             | CsvErr => CsvRejected
+                             | CsvOk p => CsvProblem (enc_Problem p)
+                             end
   | _, _ => CsvBadInput
   end.
